@@ -122,6 +122,11 @@ structure AuthIn where
   sigsGood : Bool                     -- every in-zone RRset of the section carries an RRSIG that verifies
   nsec : List Nsec                    -- the NSEC records of the authority section, as sent
   nsec3 : List SdnsVerif.Model.Nsec3.Nsec3   -- the NSEC3 records of the authority section, as sent
+  -- what the resolver's own `<cut> DS` lookup brings back when the response carries no signature at all
+  -- (`provenInsecureDelegation` → `authenticatedDelegationDS`): no DS RRset, these denial records
+  dsSigsGood : Bool := false            -- … and every in-zone RRset of that DS response verifies
+  dsNsec : List Nsec := []
+  dsNsec3 : List SdnsVerif.Model.Nsec3.Nsec3 := []
 
 def authServfail : AuthOut := { servfail := true, ad := false, marked := false, aggressive := false }
 def authPassed : AuthOut := { servfail := false, ad := false, marked := false, aggressive := false }
@@ -150,19 +155,41 @@ def authAgg (H : SdnsVerif.Model.Nsec3.HashFn) (i : AuthIn) : Except Err Rcode :
   | .ok (rc, _) => .ok rc
   | .error e => .error e
 
+/-- `insecureProofName`: a DS question is answered from the parent side of the
+cut it names, so the walk stops one label above. -/
+def insecureProofName (q : Name) (t : Nat) : Name := if t = 43 ∧ q ≠ [] then q.dropLast else q
+
+/-- the first zone-cut candidate below `zone` on the way to `pn`. -/
+def firstCut (zone pn : Name) : Name := pn.take (zone.length + 1)
+
+/-- `provenInsecureDelegation` as far as ONE signed zone goes (no DS RRset is
+ever returned, so no secure delegation is descended into): the name must lie
+strictly below the zone, and the DS lookup for the first cut candidate must
+come back validly signed with records that prove "delegation, no DS"
+(`VerifyDelegationForZoneWithWork` if it carries in-zone NSEC3, else
+`VerifyDelegationNSEC`). Any error is `false` (fail closed). -/
+def provenInsecure (H : SdnsVerif.Model.Nsec3.HashFn) (i : AuthIn) : Bool :=
+  let pn := insecureProofName i.q i.t
+  if !nameInZone pn i.signer || pn == i.signer then false else
+  if !i.dsSigsGood then false else
+  let s3 := i.dsNsec3.filter fun r => nameInZone r.owner i.signer
+  let s := filterToZone i.signer i.dsNsec
+  if !s3.isEmpty then SdnsVerif.Model.Nsec3.verifyDelegation H s3 i.signer (firstCut i.signer pn) == .ok ()
+  else if !s.isEmpty then verifyDelegationNSEC (firstCut i.signer pn) s == .ok ()
+  else false
+
 /-- `Resolver.authority` on such a response. Without a DS for the zone the zone
 is insecure (nothing to validate against). CD=1 skips validation (the response
-travels on without AD and without provenance); so does the response to an RRSIG
-question (verifyDNSSEC returns "not verified, no error" for it); a signer that is not an
+travels on without AD and without provenance); a signer that is not an
 ancestor-or-self of the question (`ValidateSigner`), missing or failing RRSIGs
 are errors; otherwise the exact validator decides and the RFC 8198 evaluator
 only adds the `Aggressive` flag. -/
 def authorityStep (H : SdnsVerif.Model.Nsec3.HashFn) (i : AuthIn) : AuthOut :=
   if i.reqCD then authPassed else
-  if !i.signed then (if i.haveDS then authServfail else authPassed) else   -- no signer: ErrNoSignatures in a secure zone
+  -- no signer: in a secure zone only a PROVEN insecure delegation above the name excuses it, else ErrNoSignatures
+  if !i.signed then (if i.haveDS then (if provenInsecure H i then authPassed else authServfail) else authPassed) else
   if !nameInZone i.q i.signer then authServfail else       -- ValidateSigner
   if !i.haveDS then authPassed else                        -- no DS for the signer: insecure zone, passed on without AD
-  if i.t = 46 then authPassed else                         -- verifyDNSSEC: "we don't need to verify rrsig questions"
   if !i.sigsGood then authServfail else
   authority (authFamily i) (authExact H i) (authAgg H i) i.nx false
 
